@@ -11,6 +11,8 @@
 //!        method C: random operation sequences on the real provider, logged as ndjson for Trace_Auth.tla.
 //!   auth rerun <lifeDefault> <lifeRefresh> <lifeLong>
 //!        stdin: operations in the log format (results ignored); executes them again and logs them (replay files)
+//!   auth tokens <n> [pepper]
+//!        issues n tokens through the public API and prints their hex digits for TokenShape.tla
 //!   auth timing        : measures one create_user / verify (Argon2 cost) for the driver's budget
 //!
 //! Abstraction (the trusted part): real uid / token strings <-> small integers by first appearance;
@@ -985,6 +987,38 @@ fn rerun(args: &[String]) {
     std::process::exit(0);
 }
 
+/// Issues `n` tokens through the public API of a real provider (one user; sessions with lifetime 0, the default
+/// lifetime followed by invalidate_session / invalidate_user_session, and an explicit lifetime followed by a Tick
+/// past it) and prints each as {"t": token, "d": [its characters as hex digits 0..15, -1 = not [0-9a-f]]} for
+/// TokenShape.tla.
+fn tokens(args: &[String]) {
+    let n: usize = args[0].parse().unwrap();
+    let pepper = args.get(1).map(|s| s == "1").unwrap_or(false);
+    let lives = Lives { default: 1, refresh: 2, long: 3 };
+    let st = {
+        let w = World::new(pepper, 0, lives);
+        w.st.clone()
+    };
+    let uid = match catch_unwind(AssertUnwindSafe(|| st.auth_provider().create_user("token-shape"))) {
+        Ok(Ok(u)) => u,
+        other => { eprintln!("create_user failed: {:?}", other.map(|r| r.map_err(|e| format!("{:?}", e)))); std::process::exit(2) }
+    };
+    for i in 0..n {
+        let r = catch_unwind(AssertUnwindSafe(|| {
+            let mut p = st.auth_provider();
+            match i % 3 {
+                0 => p.create_session_with_lifetime(&uid, 0),
+                1 => { let t = p.create_session(&uid); if let Ok(t) = &t { p.invalidate_session(t); } t }
+                _ => { let t = p.create_session_with_lifetime(&uid, 5); p.invalidate_user_session(&uid); t }
+            }
+        }));
+        let t = match r { Ok(Ok(t)) => t, Ok(Err(e)) => format!("error:{:?}", e), Err(_) => "panic".to_string() };
+        let d: Vec<i64> = t.chars().map(|c| match c { '0'..='9' => c as i64 - '0' as i64, 'a'..='f' => c as i64 - 'a' as i64 + 10, _ => -1 }).collect();
+        out_line(&json!({"t": t, "d": d}));
+    }
+    std::process::exit(0);
+}
+
 fn timing() {
     let mut w = World::new(false, 0, Lives { default: 1, refresh: 1, long: 1 });
     let a = Act { op: "create_user".into(), u: 0, pw: 1, life: "".into(), tok: 0, ck: "".into() };
@@ -1008,6 +1042,7 @@ fn main() {
         Some("graph") if a.len() >= 9 => graph(&a[2..]),
         Some("trace") if a.len() >= 7 => trace(&a[2..]),
         Some("rerun") if a.len() >= 5 => rerun(&a[2..]),
+        Some("tokens") if a.len() >= 3 => tokens(&a[2..]),
         Some("timing") => timing(),
         _ => {
             eprintln!("usage: auth graph <pepper> <lifeDefault> <lifeRefresh> <lifeLong> <argon_budget> <walks> <walklen> [max_states] | trace <n> <maxlen> <lD> <lR> <lL> [threads] | timing");
